@@ -61,6 +61,9 @@ OPS = {
     "clone":             (f"let q = p.clone(); {BB}(&q);", False),
     # Clone::clone_from onto a second live region of the same type, state and length
     "clone_from":        (f"let mut q = CTOR; q.clone_from(&p); {BB}(&q);", False),
+    # an explicit wipe of the live region followed by a protecting transition and the drop
+    "zeroize_then_readonly":  (f"use zeroize::Zeroize; p.zeroize(); let q = p.mprotect_readonly().unwrap(); {BB}(&q);", True),
+    "zeroize_then_readwrite": (f"use zeroize::Zeroize; p.zeroize(); let q = p.mprotect_readwrite().unwrap(); {BB}(&q);", True),
     "t:mlock":           (f"let q = p.mlock().unwrap(); {BB}(&q);", False),
     "t:munlock":         (f"let q = p.munlock().unwrap(); {BB}(&q);", False),
     "t:mprotect_readonly":  (f"let q = p.mprotect_readonly().unwrap(); {BB}(&q);", False),
@@ -90,6 +93,9 @@ def expectation(cont, state, op):
     if op == "resize":
         if fixed: return None
         return "accept" if p == "RW" else "reject"
+    if op.startswith("zeroize_then_"):
+        # wiping is offered in every state; whatever follows must not fault
+        return "unspecified"
     if op == "clone_from":
         if p == "NA": return "reject"
         if fixed and lk: return "unspecified"
@@ -149,7 +155,7 @@ def write_crate(name, progs, is_bin):
     os.makedirs(f"{d}/src", exist_ok=True)
     os.makedirs(f"{d}/.cargo", exist_ok=True)
     open(f"{d}/.cargo/config.toml", "w").write("[net]\noffline = true\n")
-    open(f"{d}/Cargo.toml", "w").write(f"[package]\nname = \"{name}\"\nversion = \"0.0.0\"\nedition = \"2021\"\npublish = false\n\n[dependencies]\ndryoc = {{ path = \"/repo\", features = [\"nightly\", \"serde\"] }}\nlibc = \"0.2\"\nserde_json = \"1\"\nbincode = \"1\"\n\n[workspace]\n")
+    open(f"{d}/Cargo.toml", "w").write(f"[package]\nname = \"{name}\"\nversion = \"0.0.0\"\nedition = \"2021\"\npublish = false\n\n[dependencies]\ndryoc = {{ path = \"/repo\", features = [\"nightly\", \"serde\"] }}\nlibc = \"0.2\"\nzeroize = \"1\"\nserde_json = \"1\"\nbincode = \"1\"\n\n[workspace]\n")
     if not os.path.exists(f"{d}/Cargo.lock"):
         shutil.copy("/repo/Cargo.lock", f"{d}/Cargo.lock")
     keep = set()
@@ -195,7 +201,7 @@ def diagnostics(out):
             mm = re.search(r"src/p_(.+)\.rs$", f)
             if mm:
                 per.setdefault(mm.group(1), []).append((code, msg.get("message", ""))); hit = True
-        if not hit and code is not None:
+        if not hit and (code is not None or any(f.endswith(("src/lib.rs", "src/main.rs")) for f in files)):
             other.append((code, msg.get("message", "")))
     return per, other
 
@@ -212,6 +218,11 @@ def main():
     per, other = diagnostics(r.stdout)
     if not per and r.returncode != 0 and "error" in r.stderr and "could not compile `dryoc`" in r.stderr:
         machinery = "dryoc itself does not compile under nightly: " + r.stderr[-400:]
+    if other:
+        # an error outside the per-cell program files (the generated scaffolding itself is broken):
+        # no cell verdict can be trusted
+        print(f"MACHINERY-ERROR property=C20 the generated must-reject crate has errors outside the cell programs: {other[0]}")
+        return 2
     classes = {}
     unspecified_verdicts = {}
     for p in rej:
@@ -289,7 +300,7 @@ def main():
               coverage=dict(states=states, transitions=len(progs), traces_validated_against_impl=len(rej) + len(uns) + len(acc) + len(runs),
                             samples=[dict(cell=p["id"], expect=p["expect"], program=p["body"]) for p in (rej[:1] + acc[:1] + rej[-1:])],
                             exhaustive=True, evaluations=len(progs), distinct_nontrivial=len(rej) + len(acc),
-                            rule="one generated program per cell of the permission table (4 containers (32-byte resizable and fixed, a page-sized fixed array, a resizable region of one page of data plus one page of spare capacity) x 5 type-states x 28 operations (incl. byte views through Serialize (JSON, bincode), Debug, PartialEq, to_vec and iter) + use-after/use-result for every consuming transition + 8 stream cells); must-reject cells: rustc must report >= 1 error of a capability class; must-accept cells: compile and run in a forked child with exit 0 and no signal; unspecified cells are recorded, and those the compiler accepts are also run (a signal is a violation, an Err-unwrap exit is not)",
+                            rule="one generated program per cell of the permission table (4 containers (32-byte resizable and fixed, a page-sized fixed array, a resizable region of one page of data plus one page of spare capacity) x 5 type-states x 30 operations (incl. byte views through Serialize (JSON, bincode), Debug, PartialEq, to_vec and iter) + use-after/use-result for every consuming transition + 8 stream cells); must-reject cells: rustc must report >= 1 error of a capability class; must-accept cells: compile and run in a forked child with exit 0 and no signal; unspecified cells are recorded, and those the compiler accepts are also run (a signal is a violation, an Err-unwrap exit is not)",
                             cells=dict(must_reject=len(rej), must_accept=len(acc), unspecified=len(uns)), programs_run=len(runs),
                             reject_error_classes=classes, unspecified_verdicts=unspecified_verdicts, known_findings_matched=list(known_hit)),
               assumptions=["rustc (nightly) is the oracle for compile-time rejection; error classes distinguish a missing capability from a stale template",
